@@ -1,11 +1,19 @@
 (* Comparison functions used by generated case files of C16 (history correspondence + concurrent calls). *)
 From Mage Require Import Base.Strs Base.Expand Model.Slices.
 
-(* harness/argvchild: prints its arguments joined by one space and a newline (nothing if one of them is
-   --quiet) and exits with N if its last argument of the form --exit=N says so (N decimal, 0..255) *)
-Definition argvchild_out (argv : list string) : string :=
-  if existsb (String.eqb "--quiet") (tl argv) then EmptyString
-  else String.append (String.concat " " (tl argv)) (String (ascii_of_nat 10) EmptyString).
+(* The operating system's answer to "which program does this command word name now", fed by the harness per case:
+   (value of VERIF_FS_EPOCH, value of PATH, command word) -> exec.LookPath's answer at that moment (computed by the
+   Go standard library in the harness, independently of package sh).  The harness bumps VERIF_FS_EPOCH in the
+   process environment whenever it removes / restores / chmods a program, so the table is a function of the
+   environment at the time of the call and of argv[0]. *)
+Definition lookup_tbl := list (string * string * string * option string).
+Fixpoint os_lookup (t : lookup_tbl) (ep path name : string) : option string :=
+  match t with
+  | [] => None
+  | (e, p, n, r) :: t' => if String.eqb e ep && String.eqb p path && String.eqb n name then r else os_lookup t' ep path name
+  end.
+Definition resolved (t : lookup_tbl) (penv : list (string * string)) (argv : list string) : option string :=
+  os_lookup t (env_get penv "VERIF_FS_EPOCH") (env_get penv "PATH") (hd EmptyString argv).
 
 Fixpoint parse_dec (acc : nat) (seen : bool) (s : string) : option nat :=
   match s with
@@ -20,8 +28,20 @@ Definition exit_arg (a : string) : option nat :=
     | None => None
     end
   else None.
-Definition argvchild_exit (argv : list string) : nat :=
-  fold_left (fun acc a => match exit_arg a with Some n => n | None => acc end) (tl argv) 0.
+(* harness/argvchild started as program p: prints "p: " and its arguments joined by one space and a newline
+   (nothing if one of them is --quiet), exits with N if its last argument of the form --exit=N says so (N decimal,
+   0..255).  No program found / not startable: nothing printed, sh.ExitStatus of the error is 1. *)
+Definition argvchild_out (t : lookup_tbl) (penv : list (string * string)) (argv : list string) : string :=
+  match resolved t penv argv with
+  | None => EmptyString
+  | Some p => if existsb (String.eqb "--quiet") (tl argv) then EmptyString
+              else String.append p (String.append ": " (String.append (String.concat " " (tl argv)) (String (ascii_of_nat 10) EmptyString)))
+  end.
+Definition argvchild_exit (t : lookup_tbl) (penv : list (string * string)) (argv : list string) : nat :=
+  match resolved t penv argv with
+  | None => 1
+  | Some _ => fold_left (fun acc a => match exit_arg a with Some n => n | None => acc end) (tl argv) 0
+  end.
 
 (* n copies of s: long "slow to expand" cells of concurrent cases are written (rep_str "${Z}" n) *)
 Fixpoint rep_str (s : string) (n : nat) : string :=
@@ -41,6 +61,7 @@ Record iobs := {
 }.
 
 Record case := {
+  c_lookup : lookup_tbl;                (* the operating system's program lookups at the moments of the calls *)
   c_env : list (string * string);       (* process environment (the variables the generator uses) *)
   c_heap : heap;                        (* the caller's arrays *)
   c_cls : list closure;                 (* closures made before the history; the others are MkClosure operations *)
@@ -53,35 +74,42 @@ Definition pair_eqb (a b : string * string) : bool := String.eqb (fst a) (fst b)
 
 Definition model_obs (c : case) : list (obs * heap) :=
   map (fun x => (fst x, firstn (length (c_heap c)) (snd x)))
-      (run_history argvchild_out argvchild_exit true (c_env c) (c_cls c) (c_heap c) (c_ops c)).
+      (run_history (argvchild_out (c_lookup c)) (argvchild_exit (c_lookup c)) true (c_env c) (c_cls c) (c_heap c) (c_ops c)).
 
 Definition op_emap (o : op) : list (string * string) :=
   match o with CallDirect _ emap _ _ => emap | _ => [] end.
 
-Definition obs_agree (o : op) (m : obs * heap) (i : iobs) : bool :=
+(* [penv]: the environment at the time of the operation (a child is reported only if it could be started) *)
+Definition obs_agree (t : lookup_tbl) (penv : list (string * string)) (o : op) (m : obs * heap) (i : iobs) : bool :=
   heap_eqb (snd m) (i_snap i) && list_eqb pair_eqb (op_emap o) (i_emap i) &&
   match fst m with
   | OSet | OMk => match i_argv i with [] => true | _ => false end
   | OCall argv out so st =>
-      list_eqb (list_eqb String.eqb) [argv] (i_argv i) && option_eqb String.eqb out (i_out i) &&
+      list_eqb (list_eqb String.eqb) (match resolved t penv argv with Some _ => [argv] | None => [] end) (i_argv i) &&
+      option_eqb String.eqb out (i_out i) &&
       String.eqb so (i_stdout i) && Nat.eqb st (i_status i)
   | OBad => false
   end.
 
-Fixpoint first_diff (n : nat) (ops : list op) (ms : list (obs * heap)) (is_ : list iobs) : option (nat * option (obs * heap)) :=
+Fixpoint first_diff (t : lookup_tbl) (penv : list (string * string)) (n : nat) (ops : list op) (ms : list (obs * heap)) (is_ : list iobs)
+  : option (nat * option (obs * heap)) :=
   match ops, ms, is_ with
   | [], [], [] => None
-  | o :: ops', m :: ms', i :: is' => if obs_agree o m i then first_diff (S n) ops' ms' is' else Some (n, Some m)
+  | o :: ops', m :: ms', i :: is' =>
+      if obs_agree t penv o m i
+      then first_diff t (match o with SetEnv k v => (k, v) :: penv | _ => penv end) (S n) ops' ms' is'
+      else Some (n, Some m)
   | _, _, _ => Some (n, None)
   end.
 
 (* None: the model predicts every argv, every text and every snapshot; otherwise the first operation that differs *)
 Definition check (c : case) : option (nat * option (obs * heap)) :=
-  first_diff 0 (c_ops c) (model_obs c) (c_obs c).
+  first_diff (c_lookup c) (c_env c) 0 (c_ops c) (model_obs c) (c_obs c).
 Definition mismatches (l : list case) := mism_from check 0 l.
 
 (* ---- two overlapping calls ---- *)
 Record ccase := {
+  cc_lookup : lookup_tbl;
   cc_env : list (string * string);
   cc_heap : heap;
   cc_cls : list closure;
@@ -94,8 +122,8 @@ Record ccase := {
 
 Definition check_conc (c : ccase) : option (list string * list string * heap) :=
   let out_of (o : obs) := match o with OCall _ out _ _ => out | _ => None end in
-  match call_prog argvchild_out argvchild_exit true (cc_cls c) (cc_env c) (cc_a c),
-        call_prog argvchild_out argvchild_exit true (cc_cls c) (cc_env c) (cc_b c) with
+  match call_prog (argvchild_out (cc_lookup c)) (argvchild_exit (cc_lookup c)) true (cc_cls c) (cc_env c) (cc_a c),
+        call_prog (argvchild_out (cc_lookup c)) (argvchild_exit (cc_lookup c)) true (cc_cls c) (cc_env c) (cc_b c) with
   | Some (pa, fa), Some (pb, fb) =>
       let '(a, b, hf) := par_exec (cc_sched c) pa pb (cc_heap c) in
       let snap := firstn (length (cc_heap c)) hf in
